@@ -95,3 +95,17 @@ fn glyph_memo_selector() {
     let want_selector = match vs2 { Some(v) => v, None => VariationSelector::VS15 };
     assert!(probe == (5, want_selector), "glyph 5 with the selector THIS call asked for (text presentation by default)");
 }
+
+//@ harness legacy_symbol_code kind=complete fns=Font::legacy_symbol_char_code props=C01,C06,C02
+#[kani::proof]
+fn legacy_symbol_code() {
+    // Windows Symbol cmap: a character outside U+F000..U+F0FF is looked up at  ch - 0x20 + OS/2.usFirstCharIndex  (any u16 from the
+    // font, any character from the text): the arithmetic must not panic; for the usual usFirstCharIndex = 0xF020 it is ch + 0xF000
+    let mut font = test_font();
+    let first: u16 = kani::any();
+    font.os2_us_first_char_index = LazyLoad::Loaded(Some(first));
+    let ch: char = kani::any();
+    let code = font.legacy_symbol_char_code(ch);
+    if first == 0xF020 && (ch as u32) < 0x100 { assert!(code == ch as u32 + 0xF000, "single-byte text maps into the symbol range"); }
+    if first == 0xF020 && ch >= '\u{F000}' && ch <= '\u{F0FF}' { assert!(code == ch as u32, "characters already in the symbol range are kept"); }
+}
